@@ -11,6 +11,9 @@
 #include <map>
 #include <deque>
 #include <functional>
+#include <unistd.h>
+#include <sys/socket.h>
+#include <sys/time.h>
 #include "via/comms/socket_adaptor.hpp"
 
 namespace sim
@@ -36,8 +39,13 @@ namespace sim
     }
     template <typename O> void set_option(O const&) {}
     template <typename O> void get_option(O&) const {}
-    int native_handle() { return -1; }
+    // a real (unconnected) descriptor when the harness wants to read back the socket options the library sets
+    int fd{-1};
+    int native_handle() { return fd; }
     bool is_open() const { return true; }
+    fake_socket() = default;
+    fake_socket(fake_socket const&) = delete;
+    ~fake_socket() { if (fd >= 0) ::close(fd); }
   };
 
   // stands for asio's ssl error category: value 1 = "protocol is shutdown" (SSL_R_PROTOCOL_IS_SHUTDOWN),
@@ -58,6 +66,7 @@ namespace sim
   {
     int next_id{0};
     bool next_endpoint_throws{false};
+    bool real_descriptors{false};              // give every socket a real descriptor (socket options can be read back)
     bool next_is_client{false};                // the next adaptor is a client's: its socket starts unopened
     bool resolve_fails{false};                 // the next connect() finds no endpoint
     std::map<int, void*> live;                 // id -> adaptor (type erased)
@@ -111,6 +120,7 @@ namespace sim
     explicit adaptor(boost::asio::ip::tcp::socket) : id_(++the_world()->next_id)
     {
       socket_.throws = the_world()->next_endpoint_throws;
+      if (the_world()->real_descriptors) socket_.fd = ::socket(AF_INET, SOCK_STREAM, 0);
       the_world()->next_endpoint_throws = false;
       open_ = !the_world()->next_is_client;
       the_world()->next_is_client = false;
